@@ -47,6 +47,7 @@ def gen_history(st, cfg):
     ops = []
     nid = [0]
     ndest = [0]
+    live = set()
 
     def log():
         nid[0] += 1
@@ -65,14 +66,20 @@ def gen_history(st, cfg):
             m = 1 + st.choose(3, "n-add")
             ids = []
             for _j in range(m):
-                if ndest[0] and st.choose(4, "re-add") == 3:
-                    ids.append(st.choose(ndest[0], "which"))
+                # (a destination is registered again only after it has been removed: what registering one
+                # that is registered already means -- a second registration or nothing -- is not stated)
+                gone = [d for d in range(ndest[0]) if d not in live and d not in ids]
+                if gone and st.choose(4, "re-add") == 3:
+                    ids.append(gone[st.choose(len(gone), "which")])
                 else:
                     ids.append(ndest[0])
                     ndest[0] += 1
+            live.update(ids)
             ops.append(["add", ids])
         elif k == 2:
-            ops.append(["remove", st.choose(max(1, ndest[0]), "which")])
+            w = st.choose(max(1, ndest[0]), "which")
+            live.discard(w)
+            ops.append(["remove", w])
         else:
             g = {}
             for _j in range(1 + st.choose(2, "n-g")):
